@@ -104,6 +104,16 @@ Theorem C17_error_spans_inside :
     Forall (fun sp : N * N => fst sp <= snd sp /\ snd sp <= N.of_nat (length bs)) errs.
 Proof. exact error_spans_inside. Qed.
 
+(* Finding F16: `expect_tokens_recover` has the precondition "the next token is not expected"
+   (a debug_assert).  A production that calls it otherwise (concurrent_statement.rs does, for a label
+   that is not followed by a statement: `architecture a of e is begin l: end;`) makes the parser panic
+   in builds with debug assertions and report an inverted span (start > end) in builds without. *)
+Theorem C17_recover_contract_violation :
+  exists s, p_recover 0 true s = PCrash /\
+    exists s', p_recover_noassert 0 true s = POk s' /\
+      exists sp, In sp (p_errors s') /\ snd sp < fst sp.
+Proof. exact recover_contract_violation. Qed.
+
 (* on lexer-produced streams the slice indexing of from_lex_err never panics *)
 Theorem C17_take_never_crashes :
   forall s, forallb err_ok (p_stream s) = true -> exists s', p_take s = POk s'.
@@ -268,6 +278,7 @@ Print Assumptions C17_builder_lossless.
 Print Assumptions C17_builder_current_pos.
 Print Assumptions C17_parse_lossless.
 Print Assumptions C17_error_spans_inside.
+Print Assumptions C17_recover_contract_violation.
 Print Assumptions C17_take_never_crashes.
 Print Assumptions C17_offsets_tile.
 Print Assumptions C17_rewrite_leave_id.
